@@ -95,7 +95,7 @@ func (m *FlowMon) OnEvent(c *eng.Ctx, ms eng.MState, ev *eng.Event) eng.MState {
 	T := m.transTerm()
 	switch ev.Kind {
 	case "store", "mapupdate", "mapdelete", "append", "clear", "send", "go":
-		chk("C03.R6", "effect", false, "running a flow writes "+ev.Kind+" on "+descAddr(ev)+": the walk must keep no state between (or during) runs")
+		chk("C03.R6,C10.R11", "effect", false, "running a flow writes "+ev.Kind+" on "+descAddr(ev)+": the walk must keep no state between (or during) runs")
 	case "lookup":
 		// the node's row of the connection table is read: it has to be read after the node ran
 		// (a node may connect itself while it runs; "most recently connected" includes that)
@@ -120,7 +120,7 @@ func (m *FlowMon) OnEvent(c *eng.Ctx, ms eng.MState, ev *eng.Event) eng.MState {
 		}
 	case "call":
 		if isAtomicWrite(ev) {
-			chk("C03.R6", "effect", false, "running a flow updates state through "+eng.CalleeName(ev.Callee)+": the walk must keep no state between (or during) runs")
+			chk("C03.R6,C10.R11", "effect", false, "running a flow updates state through "+eng.CalleeName(ev.Callee)+": the walk must keep no state between (or during) runs")
 		}
 		switch ev.Class {
 		case "ctx.Err":
@@ -366,7 +366,7 @@ func (m *FlowMon) onReturn(c *eng.Ctx, s flowState, ev *eng.Event, T *eng.Term) 
 	ck := func(rule, role string, ok bool, msg string) {
 		m.Col.Check(rule, fn+":"+role, ok, ev.Pos, msg, pathIf(!ok, c))
 	}
-	ck("C03.R6", "effect", true, "")
+	ck("C03.R6,C10.R11", "effect", true, "")
 	switch c.IsNil(err) {
 	case eng.TriTrue:
 		ck("C04.R4", "success-return", s.n > 0 && knownNil(c, s.prevErr), "the flow reports success although the last node's run is not known to have succeeded")
